@@ -135,6 +135,73 @@ fn container_attrs(attrs: &[syn::Attribute]) -> Vec<String> {
     v
 }
 
+/// `F` applied to `it`: a path `F` → `F(it)`; a closure `|x| B` → B with x written `it`
+fn apply_to_it(env: &Env, f: &syn::Expr) -> Option<String> {
+    if let Some((b, body)) = closure1(f) {
+        return Some(canon(strip_ref(&env.with_rename(&b, "it").resolve(body))));
+    }
+    if path_segments(f).is_some() {
+        return Some(format!("{}(it)", canon(f)));
+    }
+    None
+}
+
+/// the three spellings of "map the optional value": `X.map(F)`, `match X { Some(v) => Some(G), None => None }` and
+/// `let v = X?; Some(G)` are all written `X.map(|it|G)`
+fn option_map_form(env: &Env, stmts: &[syn::Stmt]) -> Option<String> {
+    match stmts {
+        [syn::Stmt::Expr(e, None)] => {
+            let e = strip_ref(e);
+            if let syn::Expr::MethodCall(m) = e {
+                if m.method == "map" && m.args.len() == 1 {
+                    let g = apply_to_it(env, &m.args[0])?;
+                    return Some(format!("{}.map(|it|{})", canon(strip_ref(&env.resolve(&m.receiver))), g));
+                }
+            }
+            if let syn::Expr::Match(mx) = e {
+                if mx.arms.len() == 2 {
+                    let mut some_arm = None;
+                    let mut none_ok = false;
+                    for a in &mx.arms {
+                        if a.guard.is_some() {
+                            return None;
+                        }
+                        if let Some(b) = pat_some(&a.pat) {
+                            if let syn::Expr::Call(c) = strip(&a.body) {
+                                if last_segment(&c.func).as_deref() == Some("Some") && c.args.len() == 1 {
+                                    some_arm = Some(canon(strip_ref(&env.with_rename(&b, "it").resolve(&c.args[0]))));
+                                }
+                            }
+                        } else if pat_is_none(&a.pat) && last_segment(strip(&a.body)).as_deref() == Some("None") {
+                            none_ok = true;
+                        }
+                    }
+                    if let (Some(g), true) = (some_arm, none_ok) {
+                        return Some(format!("{}.map(|it|{})", canon(strip_ref(&env.resolve(&mx.expr))), g));
+                    }
+                }
+            }
+            None
+        }
+        [syn::Stmt::Local(l), syn::Stmt::Expr(e, None)] => {
+            let (v, is_mut, init) = plain_let(l)?;
+            if is_mut {
+                return None;
+            }
+            if let syn::Expr::Try(t) = strip(init) {
+                if let syn::Expr::Call(c) = strip(e) {
+                    if last_segment(&c.func).as_deref() == Some("Some") && c.args.len() == 1 {
+                        let g = canon(strip_ref(&env.with_rename(&v, "it").resolve(&c.args[0])));
+                        return Some(format!("{}.map(|it|{})", canon(strip_ref(&env.resolve(&t.expr))), g));
+                    }
+                }
+            }
+            None
+        }
+        _ => None,
+    }
+}
+
 fn receiver(sig: &syn::Signature) -> Option<(bool, bool)> {
     match sig.inputs.first() {
         Some(syn::FnArg::Receiver(r)) => Some((r.reference.is_some(), r.mutability.is_some())),
@@ -168,7 +235,9 @@ fn methods(f: &syn::File, owner: &str, fields: &[Field]) -> (Vec<Method>, Vec<Se
             match receiver(&func.sig) {
                 // accessor: `&self`, single tail expression
                 Some((true, false)) => {
-                    if let [syn::Stmt::Expr(e, None)] = func.block.stmts.as_slice() {
+                    if let Some(b) = option_map_form(&env, &func.block.stmts) {
+                        acc.push(Method { name, arity: ps.len(), body: b });
+                    } else if let [syn::Stmt::Expr(e, None)] = func.block.stmts.as_slice() {
                         acc.push(Method { name, arity: ps.len(), body: canon(strip_ref(&env.resolve(e))) });
                     } else {
                         acc.push(Method { name, arity: ps.len(), body: format!("<block>{}", canon(&func.block)) });
@@ -183,7 +252,9 @@ fn methods(f: &syn::File, owner: &str, fields: &[Field]) -> (Vec<Method>, Vec<Se
                                 if ident_of(&fe.base).as_deref() == Some("self") {
                                     if let syn::Member::Named(n) = &fe.member {
                                         if fields.iter().any(|x| x.name == n.to_string()) && func.block.stmts.len() <= 2 {
-                                            set.push(Setter { name: name.clone(), field: n.to_string(), value: canon(strip_ref(&env.resolve(&a.right))) });
+                                            let rhs_stmt = [syn::Stmt::Expr((*a.right).clone(), None)];
+                                            let value = option_map_form(&env, &rhs_stmt).unwrap_or_else(|| canon(strip_ref(&env.resolve(&a.right))));
+                                            set.push(Setter { name: name.clone(), field: n.to_string(), value });
                                             done = true;
                                         }
                                     }
